@@ -400,12 +400,25 @@ func c02JSONShape(v interface{}) string {
 	return "?"
 }
 
+// c02SplitBody splits a body into its first JSON value (leading white space
+// dropped) and the bytes after it; ok is false when it starts with no complete
+// JSON value.
+func c02SplitBody(b string) (first, rest string, ok bool) {
+	dec := json.NewDecoder(strings.NewReader(b))
+	var v interface{}
+	if err := dec.Decode(&v); err != nil {
+		return "", "", false
+	}
+	n := int(dec.InputOffset())
+	return strings.TrimLeft(b[:n], " \t\r\n"), b[n:], true
+}
+
 func jsonUnmarshalStrict(s string, v *interface{}) error {
 	dec := json.NewDecoder(strings.NewReader(s))
 	if err := dec.Decode(v); err != nil {
 		return err
 	}
-	if dec.More() {
+	if strings.TrimSpace(s[dec.InputOffset():]) != "" {
 		return fmt.Errorf("trailing data")
 	}
 	return nil
@@ -474,14 +487,37 @@ func c02ReqShape(r c02Req, route *ast.Route, prog string) string {
 	}
 	if r.Body != nil {
 		var v interface{}
-		if err := jsonUnmarshalStrict(*r.Body, &v); err != nil {
-			if *r.Body == "" {
-				parts = append(parts, "body=EMPTY")
-			} else {
-				parts = append(parts, "body=MALFORMED")
+		first, rest, ok := c02SplitBody(*r.Body)
+		switch {
+		case *r.Body == "":
+			parts = append(parts, "body=EMPTY")
+		case !ok:
+			parts = append(parts, "body=MALFORMED")
+		default:
+			_ = jsonUnmarshalStrict(first, &v)
+			sh := "body=" + c02JSONShape(v)
+			if strings.TrimSpace(rest) != "" {
+				// a complete JSON value followed by further bytes: another value, or bytes that start none
+				var w interface{}
+				if _, _, ok2 := c02SplitBody(rest); ok2 && jsonUnmarshalStrict(rest, &w) == nil {
+					sh += "+VALUE"
+				} else if ok2 {
+					sh += "+VALUES"
+				} else {
+					sh += "+GARBAGE"
+				}
 			}
-		} else {
-			parts = append(parts, "body="+c02JSONShape(v))
+			parts = append(parts, sh)
+		}
+		if r.Pad > 0 {
+			switch {
+			case r.Pad+len(*r.Body) > c02BodyLimit:
+				parts = append(parts, "padded-past-10MiB")
+			case r.Pad+len(*r.Body) == c02BodyLimit:
+				parts = append(parts, "padded-to-10MiB")
+			default:
+				parts = append(parts, "padded")
+			}
 		}
 	}
 	if r.CType != "" {
@@ -846,6 +882,34 @@ func c02CaseVariants(c c02Case) []c02Case {
 			r := c.req.clone()
 			r.Body = c02Str("{}")
 			out = append(out, c02Case{c.mod, c.route, r})
+		}
+		if c.req.Pad > 0 {
+			r := c.req.clone()
+			r.Pad = 0
+			out = append(out, c02Case{c.mod, c.route, r})
+		}
+		// the body grammar: drop what precedes / follows the first JSON value, then
+		// reduce the value and what follows it to their simplest representatives
+		body := *c.req.Body
+		with := func(nb string) {
+			if nb != body {
+				r := c.req.clone()
+				r.Body = c02Str(nb)
+				out = append(out, c02Case{c.mod, c.route, r})
+			}
+		}
+		if first, rest, ok := c02SplitBody(body); ok {
+			with(first)
+			with(first + rest)
+			if strings.TrimSpace(rest) != "" {
+				if strings.HasPrefix(first, "{") {
+					with("{}" + rest)
+					with("{};")
+				}
+				with(first + ";")
+			}
+		} else if t := strings.TrimLeft(body, " \t\r\n\ufeff"); t != body {
+			with(t)
 		}
 	}
 	if c.req.CType != "" {
@@ -1320,6 +1384,21 @@ func c02RequestInlineVariants(c c02Case) [][]ast.Statement {
 				lit = ast.StringLiteral{Value: v}
 			case float64:
 				lit = ast.FloatLiteral{Value: v}
+			case []interface{}:
+				// an array of numbers
+				arr := ast.ArrayExpr{}
+				for _, e := range v {
+					f, ok := e.(float64)
+					if !ok {
+						arr.Elements = nil
+						break
+					}
+					arr.Elements = append(arr.Elements, ast.LiteralExpr{Value: ast.FloatLiteral{Value: f}})
+				}
+				if len(arr.Elements) == len(v) && len(v) > 0 {
+					subst(fieldOf("input", k), arr)
+				}
+				continue
 			default:
 				continue
 			}
